@@ -19,6 +19,8 @@ PROP = dict(
         "MM.C24.C24_cache_locked",
         "MM.C24.C24_disabled_no_action",
         "MM.C24.C24_disabled_404",
+        "MM.C24.C24_minimal_overrides",
+        "MM.C24.C24_minimal_404",
         "MM.C24.exempt_table",
         "MM.C24.fact_disabled",
         "MM.C24.fact_nested",
@@ -31,7 +33,8 @@ PROP = dict(
          "segments, trailing slash, case flips, exempt-prefix/../protected combinations, %00, ';x') x token presentation (Bearer header "
          "right/wrong/empty/lower-case/double-space/trailing-space, Basic, bare token, ?token= right/wrong/empty, both); each request is "
          "served by the real health.Server handler under httptest with recording providers and by the Lean model; observed: "
-         "Request.Pattern (which registration ran, '-' = mux never reached), status class, provider calls; one `race` case: goroutines present the same "
+         "Request.Pattern (which registration ran, '-' = mux never reached), status class, provider calls; `gate` ops: the handler of an agent built by agent.New from YAML parsed by config.Parse, for ALL 54 combinations of minimal x {unset,true,false}^3 of the group "
+         "flags, GET on group and exempt paths (configuration -> ServerConfig wiring and the documented precedence 'minimal overrides the flags'); one `race` case: goroutines present the same "
          "wrong token simultaneously against a bcrypt cost-10 hash, every answer must be 401; non-trivial = the mux was reached",
     nontrivial=lambda op, out: not out.startswith("pat=- st=401"),
     trusted_base=[
